@@ -17,13 +17,14 @@ TEXT = ("Each table of the bounded space is installed in a genuine code object o
         "(offset, line) pairs dis.findlinestarts gives there. Also every compiled G-program. offset2line is compared with a "
         "linear scan on every strictly increasing start list of length <= 4 over 5 offsets x every query offset.")
 NOTE = ("Trusted: dis.findlinestarts of 2.7, 3.6-3.13 (the 3.8/3.9 end-of-code cut-off only applies to those two: tables "
-        "reaching past the code are generated for them only). Pre-3.6 unsigned formats other than 2.7 are covered through "
-        "C01 transplants + M-lines only in thorough.")
+        "reaching past the code are generated for them only). The 15 unsigned-lnotab versions without an interpreter "
+        "(1.5-2.6, 3.0-3.5) are held to Python 2.7's answers on the same tables (derived oracle: same format).")
 RULE = ("case = one (line table, first line, code length) triple for one reference version, or one compiled program, or one "
         "(start list, query) block for offset2line; distinct = distinct (version, table bytes, first line, code length)")
 ASSUMPTIONS = ["reference = dis.findlinestarts of the producing interpreter on a code object carrying the same table",
                "dup_lines=False is used when comparing with CPython (DESIGN 3.2)"]
 QUICK_VERS = ["2.7", "3.8", "3.10", "3.12"]
+UNSIGNED_NO_INTERP = [(1, 5), (1, 6), (2, 0), (2, 1), (2, 2), (2, 3), (2, 4), (2, 5), (2, 6), (3, 0), (3, 1), (3, 2), (3, 3), (3, 4), (3, 5)]
 
 
 def bounds(tier):
@@ -52,6 +53,15 @@ def cases(plan, tier, shard, nshards, host):
             yield {"kind": "prog", "ver": rec["ver"], "id": rec["id"], "pyc": rec["pyc"],
                    "codes": [{"name": c["name"], "linestarts": c["linestarts"], "starts": [[i[0], i[6]] for i in c["insts"] if i[6] is not None]}
                              for c in rec["codes"]]}
+    # unsigned-lnotab versions without an interpreter (1.5-2.6, 3.0-3.5): the 2.7 tables and 2.7's answers are the
+    # reference (same format: unsigned deltas, no end-of-code cut-off) - a derived oracle like the C01 transplants
+    for idx, rec in common.read_dataset(plan["lt"]["2.7"], shard, nshards):
+        if idx < 0:
+            continue
+        if tier == "quick" and rec["tag"].startswith("1:") and (idx % 16):
+            continue
+        yield {"kind": "unsigned-transplant", "table": rec["table"], "firstlineno": rec["firstlineno"], "codelen": rec["codelen"],
+               "linestarts": rec["linestarts"]}
     # offset2line: complete over its small space
     offs = [0, 2, 4, 6, 10]
     n = 0
@@ -64,6 +74,8 @@ def cases(plan, tier, shard, nshards, host):
 
 
 def case_key(c):
+    if c["kind"] == "unsigned-transplant":
+        return "u:%s:%d:%d" % (c["table"], c["firstlineno"], c["codelen"])
     if c["kind"] == "table":
         return "t:%s:%s:%d:%d" % (c["ver"], c["table"], c["firstlineno"], c["codelen"])
     if c["kind"] == "prog":
@@ -72,6 +84,8 @@ def case_key(c):
 
 
 def describe(c):
+    if c["kind"] == "unsigned-transplant":
+        return {"kind": c["kind"], "table_hex": c["table"], "first_line": c["firstlineno"], "versions": "1.5-2.6, 3.0-3.5"}
     if c["kind"] == "table":
         return {"kind": "table", "version": c["ver"], "table_hex": c["table"], "first_line": c["firstlineno"], "code_len": c["codelen"],
                 "reference_linestarts": c["linestarts"][:6]}
@@ -113,6 +127,22 @@ def run_case(case, ctx):
             got = offset2line(q, ls)
             if got != want:
                 ctx.violation("offset2line", "offset2line(%d, %s) = %r, expected %r" % (q, ls, got, want))
+        return
+    if case["kind"] == "unsigned-transplant":
+        table = unhx(case["table"])
+        want = [tuple(x) for x in case["linestarts"]]
+        for ver in UNSIGNED_NO_INTERP:
+            ctx.count("unsigned_transplants")
+            opc = xinst.opc_for(ver)
+            co = xinst.portable_with_code(ver, b"\x09" * case["codelen"], nconst=1, nname=1, nvar=1, lnotab=table, firstlineno=case["firstlineno"])
+            try:
+                got = [tuple(x) for x in opc.findlinestarts(co, dup_lines=False)]
+            except Exception as e:
+                ctx.violation("%d.%d:opc.findlinestarts:raises:%s:transplant" % (ver[0], ver[1], type(e).__name__), "%r on table %s" % (e, case["table"]))
+                continue
+            if got != want:
+                ctx.violation("%d.%d:opc.findlinestarts:%s:transplant" % (ver[0], ver[1], _delta_class(case["table"], ver)),
+                              "gives %s, Python 2.7 (same unsigned format) %s (table %s first line %d)" % (got[:6], want[:6], case["table"], case["firstlineno"]))
         return
     ver = tuple(case["ver"])
     vtag = "%d.%d" % ver
